@@ -139,3 +139,13 @@ Example C09_nonvacuous :
    r_dst (run_oneway src c o (transfer (plan_of src c o)) (fun _ => false)) =
    r_dst (run_oneway src dst o (transfer (plan_of src dst o)) (fun _ => false))).
 Proof. vm_compute. repeat split. Qed.
+
+(** The step sequence of one delivery in the crash model (open the staging file, one write per chunk, rename, set the
+    mtime: the program-counter transitions of OneWaySteps.step) is the list of file-system calls of incremental.rs
+    deliver_local / deliver_pull as the source has them now: the data goes into the destination's staging name, the
+    rename publishes that very file onto the destination, the mtime is set on the destination afterwards
+    (Gen/OneWaySysGen.v, Proofs/TieOneWaySys.v). *)
+Require Copia.Proofs.TieOneWaySys.
+Theorem C09_delivery_steps_are_translation_of_source : TieOneWaySys.oneway_delivery_is_translation.
+Proof. exact TieOneWaySys.oneway_delivery_is_translation_holds. Qed.
+Print Assumptions C09_delivery_steps_are_translation_of_source.
